@@ -756,6 +756,11 @@ func (p *Program) instances(cs *CallSite, constOnly bool) []*CallSite {
 					}
 				}
 			}
+			for _, pr := range ph.Block().Preds {
+				if p.Dominates(ph.Block(), pr) {
+					return // the merge at a loop head (an accumulator) is not a choice between call-site instances
+				}
+			}
 			if pick != ph {
 				pick = ph
 				n++
